@@ -914,7 +914,7 @@ func main() {
 	// ---- Facts.lean
 	var ft strings.Builder
 	ft.WriteString("/-! GENERATED by tools/go2lean from the current /repo sources. Do not edit. -/\nnamespace Jrpc.Gen.Facts\n\n")
-	ft.WriteString("/-- one syntactic site: file, enclosing function, what, and whether the owner's mutex is held there -/\nstructure Site where\n  file : String\n  fn : String\n  what : String\n  locked : Bool\n  deriving DecidableEq, Repr\n\n")
+	ft.WriteString("/-- one syntactic site: file, enclosing function, what, and whether the owner's mutex is held there -/\nstructure Site where\n  file : String\n  fn : String\n  field : String\n  what : String\n  locked : Bool\n  deriving DecidableEq, Repr\n\n")
 	var chanSites, writers, gos, sems []site
 	chanRecv := map[string]bool{"ch": true, "s.ch": true, "c.ch": true}
 	fields := map[string]bool{"s.used": true, "s.call": true, "s.callID": true, "s.inq": true, "s.nbar": true, "s.ch": true, "s.err": true, "s.work": true,
@@ -1053,7 +1053,11 @@ func main() {
 			if i == len(ss)-1 {
 				comma = ""
 			}
-			fmt.Fprintf(&ft, "  ⟨%s, %s, %s, %v⟩%s\n", leanStr(s.file), leanStr(s.fn), leanStr(s.what), s.locked, comma)
+			field, what := "", s.what
+			if i := strings.LastIndex(s.what, "."); i > 0 && name == "writers" {
+				field, what = s.what[:i], s.what[i+1:]
+			}
+			fmt.Fprintf(&ft, "  ⟨%s, %s, %s, %s, %v⟩%s\n", leanStr(s.file), leanStr(s.fn), leanStr(field), leanStr(what), s.locked, comma)
 		}
 		ft.WriteString("]\n\n")
 	}
